@@ -94,14 +94,7 @@ __CPROVER_ensures((i == g_ni && g_nj < g_nsz) ==> __CPROVER_return_value->second
 __CPROVER_assigns();
 
 /* ------------------------------------------------------------------------------- (c) element access of the getters */
-/* exception classes a handler of the getters can select (C++ standard [std.exceptions]): out_of_range, invalid_argument,
- * length_error, domain_error derive from logic_error, which derives from exception; the getters' handlers name
- * std::out_of_range only, which has no derived class in the model */
-#define VERIF_PARENT17(t) \
-  (((t) == EXC_logic_error || (t) == EXC_runtime_error || (t) == EXC_bad_alloc) ? EXC_exception : \
-   ((t) == EXC_out_of_range || (t) == EXC_invalid_argument || (t) == EXC_length_error || (t) == EXC_domain_error) ? EXC_logic_error : \
-   ((t) == EXC_range_error || (t) == EXC_overflow_error || (t) == EXC_underflow_error) ? EXC_runtime_error : EXC_none)
-#define VERIF_CATCHES(x, T) ((x) != EXC_none && ((x) == (T) || VERIF_PARENT17(x) == (T) || VERIF_PARENT17(VERIF_PARENT17(x)) == (T)))
+/* VERIF_PARENT17 / VERIF_CATCHES (exception class hierarchy): stubs/C17_strto.h */
 
 extern bool g_present;            /* the looked-up name is a key of `named` */
 extern ArgVec* g_vals;            /* its vector (the distinguished entry) */
